@@ -7,6 +7,8 @@
 //! top-level record (message "m"), logs the probe number `probe` (message "k") through the
 //! same Logger before it returns - a record emitted from inside an appender is an ordinary
 //! record and must be routed like one.
+//! Optional 7th component ( idx ... ): these appenders are supplied as `log::Log` values whose own
+//! `enabled()` refuses everything (they neither fail nor follow up).
 //! result: per probe the list of appender indices (position in the appender
 //! declaration list) whose `append` was called, in call order; ("err" 1) when
 //! the config does not build.  With a 6th component one more entry follows: per probe
@@ -56,9 +58,33 @@ impl log4rs::append::Append for NestAppender {
     fn flush(&self) {}
 }
 
+/// An appender supplied as a `log::Log` (log4rs' blanket `impl<T: Log> Append for T`): its own
+/// `enabled()` says no to everything, `log()` records the call as (1 idx).  Routing - and nothing
+/// else - decides what an attached appender receives.
+#[derive(Debug)]
+struct LogSink {
+    idx: usize,
+    rec: Rec,
+}
+
+impl log::Log for LogSink {
+    fn enabled(&self, _m: &log::Metadata) -> bool {
+        false
+    }
+    fn log(&self, record: &log::Record) {
+        let top = record.args().to_string() == "m";
+        self.rec
+            .lock()
+            .unwrap()
+            .push(Val::L(vec![Val::N(if top { 1 } else { 2 }), Val::N(self.idx as u128)]));
+    }
+    fn flush(&self) {}
+}
+
 fn run(case: &Val) -> Val {
     let c = case.l();
     let rec = new_rec();
+    let logkind: Vec<usize> = if c.len() > 6 { c[6].l().iter().map(|v| v.u()).collect() } else { vec![] };
     let nest: Option<(usize, usize)> = if c.len() > 5 && c[5].l().len() == 2 {
         Some((c[5].l()[0].u(), c[5].l()[1].u()))
     } else {
@@ -76,6 +102,11 @@ fn run(case: &Val) -> Val {
             }
             _ => None,
         };
+        if logkind.contains(&i) {
+            builder = builder
+                .appender(Appender::builder().build(a.str(), Box::new(LogSink { idx: i, rec: rec.clone() })));
+            continue;
+        }
         builder = builder.appender(Appender::builder().build(
             a.str(),
             Box::new(NestAppender {
